@@ -26,9 +26,10 @@ package inference
 //@ define (isUndet v) (is v *UndeterminedVal)
 //@ define (detBool v) (. (as v *DeterminedVal) Bool)
 //@ define (undet v) (as v *UndeterminedVal)
-//@ define (valOK v) (or
-//@   (and (isDet v) (not (= (as v *DeterminedVal) nil)) (ebKnown (detBool v)))
-//@   (and (isUndet v) (not (= (undet v) nil)) (omOK (. (undet v) Implicates)) (omOK (. (undet v) Implicants))))
+//@ -- (a conjunction of implications rather than a disjunction of cases, so that obligations split per conjunct)
+//@ define (valOK v) (and (or (isDet v) (isUndet v))
+//@   (=> (isDet v) (and (not (= (as v *DeterminedVal) nil)) (ebKnown (detBool v))))
+//@   (=> (isUndet v) (and (not (= (undet v) nil)) (omOK (. (undet v) Implicates)) (omOK (. (undet v) Implicants)))))
 //@ define (imOK i) (and (not (= i nil)) (omOK i.mapping) (forall ((s primitiveSite)) (=> (imHas i s) (valOK (imVal i s)))))
 //@ -- det: 0 = absent, 1 = undetermined, 2 = nilable (true), 3 = nonnil (false)
 //@ define (det i s) (ite (not (imHas i s)) 0 (ite (isUndet (imVal i s)) 1 (ite (ebVal (detBool (imVal i s))) 2 3)))
@@ -373,7 +374,9 @@ package inference
 //@    (forall ((o (typeof m))) (=> (allocated-before o) (= (deref o) (old (deref o)))))
 //@    (forall ((r (typeof m.inner))) (=> (allocated-before r) (and (= (mapdom r) (old (mapdom r))) (= (mapvals r) (old (mapvals r))) (= (len r) (old (len r))))))
 //@    (forall ((p (typeof (omPair m 0)))) (=> (allocated-before p) (= (deref p) (old (deref p)))))
-//@    (forall ((a Int)) (=> (allocated-before a) (= (rowat m.Pairs a) (old (rowat m.Pairs a))))))
+//@    (forall ((a Int)) (=> (allocated-before a) (= (rowat m.Pairs a) (old (rowat m.Pairs a)))))
+//@    (forall ((o (typeof m)) (j Int)) (=> (and (allocated-before o) (<= 0 j) (< j (old (len o.Pairs)))) (and (= (omPair o j) (old (omPair o j))) (= (deref (omPair o j)) (old (deref (omPair o j))))))
+//@        (pattern (omPair o j)) (pattern (old (omPair o j)))))
 //@ func inferredValDiff$2
 //@ prop C06 C03
 //@ requires (and (omOK newMap) (omOK oldMap))
@@ -434,6 +437,7 @@ package inference
 //@ ensures undetermined-diff-implicates (=> (and (isUndet newVal) (isUndet oldVal)) (edgesAreDiff (nImplicates result0) (nImplicates newVal) (nImplicates oldVal)))
 //@ ensures undetermined-diff-flag (=> (and (isUndet newVal) (isUndet oldVal)) (= result1 (or (> (len (. (nImplicants result0) Pairs)) 0) (> (len (. (nImplicates result0) Pairs)) 0))))
 //@ ensures nothing-old-touched (oldStateKept (nImplicants oldVal))
+//@ ensures old-values-untouched (forall ((u *UndeterminedVal)) (=> (allocated-before u) (= (deref u) (old (deref u)))))
 
 //@ -- chooseSitesToExport, top level (C06): every exported site of the map is chosen; the two walks started from the
 //@ -- exported undetermined sites are closed (every visitable implicant of a backward-visited site is backward-visited,
@@ -492,3 +496,46 @@ package inference
 //@    (bclosed i toExport reachesExported reachableFromExported site)
 //@    (<= -1 rangeindex) (< rangeindex (len (. (implicatesOf i site) Pairs)))
 //@    (forall ((k Int)) (=> (and (<= 0 k) (<= k rangeindex)) (let ((p (. (idx (. (implicatesOf i site) Pairs) k) Key))) (=> (visitable i p) (fvis toExport reachesExported reachableFromExported p))))))
+
+//@ -- Export (C06, C03): exactly one fact, and only when something is new; it holds exactly the chosen sites whose
+//@ -- value is new or has grown since the upstream snapshot: a site unknown upstream with its whole value, a site that
+//@ -- became determined with its determined value, an undetermined site with exactly its new edges.
+//@ define (up i s) (mapin i.upstreamMapping s)
+//@ define (upVal i s) (mapget i.upstreamMapping s)
+//@ define (upOK i) (forall ((s primitiveSite)) (=> (up i s) (valOK (upVal i s))))
+//@ define (xHas x s) (mapin x.inner s)
+//@ define (xVal x s) (. (mapget x.inner s) Value)
+//@ define (siteAt i j) (. (idx i.mapping.Pairs j) Key)
+//@ define (valAtIdx i j) (. (idx i.mapping.Pairs j) Value)
+//@ -- what must be in the fact for site s whose current value is v
+//@ define (mustExportWhole i te s v) (and (mtrue te s) (or (not (up i s)) (and (isDet v) (isUndet (upVal i s)))))
+//@ define (mustNotExport i te s v) (or (not (mtrue te s)) (and (up i s) (isDet v) (isDet (upVal i s))))
+//@ define (mappingKept i) (and (= i.mapping (old i.mapping)) (= i.upstreamMapping (old i.upstreamMapping)) (= (deref i.mapping) (old (deref i.mapping)))
+//@    (= (mapdom i.mapping.inner) (old (mapdom i.mapping.inner))) (= (mapvals i.mapping.inner) (old (mapvals i.mapping.inner)))
+//@    (= (rowat i.mapping.Pairs (arrof i.mapping.Pairs)) (old (rowat i.mapping.Pairs (arrof i.mapping.Pairs))))
+//@    (forall ((j Int)) (=> (omInRange i.mapping j) (and (= (omPair i.mapping j) (old (omPair i.mapping j))) (= (deref (omPair i.mapping j)) (old (deref (omPair i.mapping j)))))) (pattern (omPair i.mapping j)) (pattern (old (omPair i.mapping j)))))
+//@ func (*InferredMap).Export
+//@ prop C06 C03
+//@ assert after:OrderedMap).Store known-sites-kept (forall ((s primitiveSite)) (= (imHas i s) (atloop (imHas i s))))
+//@ assert after:OrderedMap).Store known-values-kept (forall ((s primitiveSite)) (=> (imHas i s) (= (imVal i s) (atloop (imVal i s)))) (pattern (imVal i s)) (pattern (atloop (imVal i s))))
+//@ assert after:inferredValDiff old-undetermined-values-kept (forall ((u *UndeterminedVal)) (=> (atcall (allocated u)) (= (deref u) (atcall (deref u)))))
+//@ assert after:inferredValDiff old-edge-lists-kept (forall ((m (typeof (implOf i)))) (=> (atcall (allocated m)) (and (= (deref m) (atcall (deref m))) (= (mapdom m.inner) (atcall (mapdom m.inner))) (= (mapvals m.inner) (atcall (mapvals m.inner))) (= (len m.inner) (atcall (len m.inner))))))
+//@ assert after:inferredValDiff old-edge-pairs-kept (forall ((m (typeof (implOf i))) (j Int)) (=> (and (atcall (allocated m)) (<= 0 j) (< j (atcall (len m.Pairs)))) (and (= (omPair m j) (atcall (omPair m j))) (= (deref (omPair m j)) (atcall (deref (omPair m j))))))
+//@    (pattern (omPair m j)) (pattern (atcall (omPair m j))))
+//@ ghost dyncalls-pure
+//@ requires (and (imOK i) (upOK i) (not (= pass nil)) (not (= pass.Pass nil)))
+//@ modifies *
+//@ ensures mapping-untouched (mappingKept i)
+//@ ensures empty-map-exports-nothing (=> (old (= (len i.mapping.Pairs) 0)) (= (dyn count) 0))
+//@ ensures at-most-one-fact (<= (dyn count) 1)
+//@ ensures fact-is-a-fresh-inferred-map (=> (= (dyn count) 1) (and (is (dyn last arg 0) *InferredMap) (fresh (as (dyn last arg 0) *InferredMap)) (= (. (as (dyn last arg 0) *InferredMap) mapping) (local exported))))
+//@ ensures fact-sent-iff-something-new (=> (old (> (len i.mapping.Pairs) 0)) (= (= (dyn count) 1) (> (len (. (local exported) Pairs)) 0)))
+//@ ensures only-chosen-known-sites (=> (old (> (len i.mapping.Pairs) 0)) (forall ((s primitiveSite)) (=> (xHas (local exported) s) (and (imHas i s) (mtrue (local sitesToExport) s)))))
+//@ ensures new-or-newly-determined-sites-exported-whole (=> (old (> (len i.mapping.Pairs) 0)) (forall ((s primitiveSite)) (=> (and (imHas i s) (mustExportWhole i (local sitesToExport) s (imVal i s))) (and (xHas (local exported) s) (= (xVal (local exported) s) (imVal i s))))))
+//@ ensures unchosen-or-unchanged-determined-sites-not-exported (=> (old (> (len i.mapping.Pairs) 0)) (forall ((s primitiveSite)) (=> (and (imHas i s) (mustNotExport i (local sitesToExport) s (imVal i s))) (not (xHas (local exported) s)))))
+//@ loop 0 invariant exporting (and (imOK i) (upOK i) (mappingKept i) (fresh exported) (omOK exported) (not (= exported i.mapping)) (or (isnil exported.Pairs) (fresh exported.Pairs)) (fresh exported.inner)
+//@    (forall ((k primitiveSite)) (=> (xHas exported k) (fresh (mapget exported.inner k))))
+//@    (= (dyn count) 0) (<= -1 rangeindex) (< rangeindex (len i.mapping.Pairs))
+//@    (forall ((s primitiveSite)) (=> (xHas exported s) (and (imHas i s) (mtrue sitesToExport s))))
+//@    (forall ((j Int)) (=> (and (<= 0 j) (<= j rangeindex) (mustExportWhole i sitesToExport (siteAt i j) (valAtIdx i j))) (and (xHas exported (siteAt i j)) (= (xVal exported (siteAt i j)) (valAtIdx i j)))))
+//@    (forall ((s primitiveSite)) (=> (xHas exported s) (not (mustNotExport i sitesToExport s (imVal i s))))))
